@@ -2,5 +2,55 @@ import GoRes.Model.StoreMap
 import GoRes.Lemmas.Index
 /-! Helper lemmas for the store model (C11, C12). -/
 namespace GoRes.StoreMap
+open GoRes GoRes.Index
+
+variable {V : Type}
+
+/-- what one operation does, in one statement: either nothing changes and no callback runs, or
+exactly one callback runs, carrying the id and the values before and after, and only that id
+changes -/
+theorem exec_cases (s : St V) (id : Bytes) (op : Op V) :
+    ((exec s id op).2.1 = [] ∧ (exec s id op).2.2 = s) ∨
+    (∃ a, (exec s id op).2.1 = [⟨id, vget s.vals id, a⟩] ∧
+      ∀ k, vget (exec s id op).2.2.vals k = if k = id then a else vget s.vals k) := by
+  cases op <;> simp only [exec] <;> (repeat' split) <;> simp_all [vget_vset, vget_vdel]
+
+/-! ## Init and crashes -/
+
+/-- the seeding loop of `Init`: every id gets the value it had, else the first seed for it -/
+theorem vget_seed_fold (seeds : List (Bytes × V)) (vs : List (Bytes × V)) (id : Bytes) :
+    vget (seeds.foldl (fun vs (x : Bytes × V) => if (vget vs x.1).isSome then vs else vset vs x.1 x.2) vs) id
+      = (vget vs id).or (vget seeds id) := by
+  induction seeds generalizing vs with
+  | nil => simp
+  | cons e rest ih =>
+    simp only [List.foldl_cons, ih, vget_cons]
+    by_cases hid : e.1 = id
+    · subst hid
+      cases h : vget vs e.1 <;> simp [h, vget_vset]
+    · have : ¬ id = e.1 := fun x => hid x.symm
+      cases h : vget vs e.1 <;> simp [hid, vget_vset, this]
+
+theorem initOnce_vals (seeds : List (Bytes × V)) (d : Disk V) (hm : d.marker = false) (id : Bytes) :
+    vget (initOnce seeds d).vals id = (vget d.vals id).or (vget seeds id) := by
+  simp only [initOnce, hm, Bool.false_eq_true, ↓reduceIte]
+  exact vget_seed_fold seeds d.vals id
+
+theorem initOnce_marker (seeds : List (Bytes × V)) (d : Disk V) : (initOnce seeds d).marker = true := by
+  unfold initOnce; split <;> simp_all
+
+theorem initOnce_of_marker (seeds : List (Bytes × V)) (d : Disk V) (h : d.marker = true) : initOnce seeds d = d := by
+  simp [initOnce, h]
+
+theorem commit_marker (d : Disk V) (t : Txn V) (h : d.marker = true) : (commit d t).marker = true := by
+  cases t with
+  | put id v => exact h
+  | init seeds => exact initOnce_marker seeds d
+
+theorem foldl_commit_marker (w : List (Txn V)) (d : Disk V) (h : d.marker = true) :
+    (w.foldl commit d).marker = true := by
+  induction w generalizing d with
+  | nil => exact h
+  | cons t w ih => exact ih _ (commit_marker d t h)
 
 end GoRes.StoreMap
